@@ -16,6 +16,7 @@ import numpy as np
 from hypothesis import strategies as st
 
 from vf.runner import excluded, ok, trivial, violation
+from vf.spec import _to_sparse
 
 ID = "C20"
 LEVEL = "exploration"
@@ -62,6 +63,8 @@ def strategy(tier):
         case["xs"] = vec(n)
         case["cs"] = vec(m)
         case["fmt"] = draw(st.sampled_from(["coo", "csr", "csc"]))
+        # storage style of the sparse inputs: canonical, fixed pattern with stored zeros, duplicate entries
+        case["style"] = draw(st.sampled_from([None, None, "zeros", "dup"]))
         if kind == "create":
             case["stype"] = draw(st.sampled_from(["Nominal", "GradJac", "KKT"]))
             case["via"] = draw(st.sampled_from(["create_scaling", "transformation_double", "transformation_single"]))
@@ -145,8 +148,8 @@ def check(case):
     J, H = mats(case)
     g = np.array(case["g"], dtype=float)
     kind = case["kind"]
-    labels = [f"kind:{kind}", f"regime:{case['regime']}", f"fmt:{case['fmt']}"]
-    conv = {"coo": sps.coo_matrix, "csr": sps.csr_matrix, "csc": sps.csc_matrix}[case["fmt"]]
+    labels = [f"kind:{kind}", f"regime:{case['regime']}", f"fmt:{case['fmt']}", f"style:{case.get('style')}"]
+    conv = lambda D: _to_sparse(D, case["fmt"], case.get("style"))  # noqa: E731
     decisive = []
     try:
         if kind == "nominal":
@@ -217,7 +220,7 @@ def _check_create(case, labels):
     g = np.array(case["g"], dtype=float)
     cs = np.array(case["cs"], dtype=float)
     xs = np.array(case["xs"], dtype=float)
-    conv = {"coo": sps.coo_matrix, "csr": sps.csr_matrix, "csc": sps.csc_matrix}[case["fmt"]]
+    conv = lambda D: _to_sparse(D, case["fmt"], case.get("style"))  # noqa: E731
 
     class P(Problem):
         def __init__(self):
